@@ -90,6 +90,9 @@ def get_registry_path():
         {"Name": "fx.Hostboot", "SRC": {"ReasonCode": "0x2035", "Type": "BC"},
          "Documentation": {"Message": "Hostboot says %1 %2 %3 %4",
                            "MessageArgSources": ["SRCWord6", "SRCWord7", "SRCWord8", "SRCWord9"]}},
+        {"Name": "fx.LowWords", "SRC": {"ReasonCode": "0x2037"},
+         "Documentation": {"Message": "Low words %1 %2 %3 and %4",
+                           "MessageArgSources": ["SRCWord5", "SRCWord2", "SRCWord3", "SRCWord6"]}},
         {"Name": "fx.NoReason", "SRC": {"Type": "BD"}, "Documentation": {"Message": "never"}},
         {"Name": "fx.EmptyMsg", "SRC": {"ReasonCode": "0x2036"}, "Documentation": {"Message": ""}},
         {"Name": "fx.Shadow", "SRC": {"ReasonCode": "0x2030"},
